@@ -56,6 +56,10 @@ func (n *NilableTypeNode) String() string {
 	var buff strings.Builder
 
 	parens := TypePrecedence(n) > TypePrecedence(n.TypeNode)
+	if _, ok := n.TypeNode.(*NilableTypeNode); ok {
+		// `??` is a different token
+		parens = true
+	}
 	if parens {
 		buff.WriteRune('(')
 	}
